@@ -104,6 +104,15 @@ def check(sc):
                 on_removed = o["sel"] in removed_sel and removed_sel[o["sel"]] <= u
                 where = "market %s update %d (%s)" % (spec["id"], u, rec["cb"])
                 first_seen.setdefault(oid, u)
+                # the average matched price (which settlement uses) always follows the (reduced) fragment prices
+                if o["matched"] and not (o["type"] == "MARKET_ON_CLOSE" and o["side"] == "LAY"):  # (re-sized through its liability)
+                    tot = sum(m_[2] for m_ in o["matched"])
+                    if tot > 0:
+                        wap = sum(m_[1] * m_[2] for m_ in o["matched"]) / tot
+                        if abs(o["apm"] - wap) > 0.0051 + 1e-9 or abs(o["sm"] - tot) > 0.0051:
+                            raise Violation("average-price-ignores-reduction", (o["type"], o["side"]),
+                                            "fragments %s give average %.4f / size %.2f but the order reports %s / %s at %s" % (
+                                                o["matched"], wap, tot, o["apm"], o["sm"], where), sc)
                 if on_removed and first_seen[oid] >= removed_sel[o["sel"]]:
                     # requested after the removal had been processed: the placement must fail without a fill
                     if o["status"] != "PENDING" and (o["sm"] != 0 or o["matched"] or not o["complete"]) and "PENDING" in o["status_log"]:
